@@ -55,7 +55,7 @@ def oracle(p, o, body_alone=None):
                 bad.append(('c11:runs-past-deadline',
                             f'block entered at {entered} with deadline {d} still running at {t}'))
     # O4 early finish unaffected (metamorphic: the body alone)
-    if body_alone is not None and p[0] == 'block':
+    if body_alone is not None and p[0] == 'block' and p[5] < 2:
         d = p[3]           # entered at 0: relative and absolute deadlines coincide
         if body_alone['res'] not in ('Deadlock', 'Livelock') and body_alone['t'] < d:
             # an inner TaskTimeout nobody handled is *specified* to surface as
@@ -110,7 +110,7 @@ def evaluate(ctx, progs, res):
     model = ctx.model([T.model_line(p, None) for p in progs])
     for i, (p, (o, alone)) in enumerate(zip(progs, obs)):
         got = T.fmt_obs(o)
-        case = {'program': T.ser(p), 'forms': _forms(p), 'readable': T.show(p), 'cancel': None}
+        case = {'program': T.ser_plain(p), 'forms': _forms(p), 'readable': T.show(p), 'cancel': None}
         for key, why in oracle(p, o, alone):
             res.violation(key, case, why, impl=got)
         if model is not None:
@@ -122,7 +122,7 @@ def evaluate(ctx, progs, res):
         res.count('tce_exits', sum(1 for e in o.get('evs', []) if e[1] == 'X'))
         res.count('uncaught_exits', sum(1 for e in o.get('evs', []) if e[1] == 'U'))
         if T.n_blocks(p) >= 2:
-            res.nontrivial(T.ser(p) + _forms(p))
+            res.nontrivial(T.ser_plain(p) + _forms(p))
         if i < 3:
             res.sample({'program': T.show(p), 'impl': got})
     res['evaluations'] += len(progs)
